@@ -371,7 +371,8 @@ Lemma Sur0_iff : forall a0 h, Sur 0 a0 h <-> ExpInv h.
 Proof.
   intros a0 h. unfold Sur, SurT, ExpInv, cnt_active, cnt_chall. split.
   - intros (H1 & H2 & H3). split; auto. intros a. rewrite H3. destruct (N.eqb a0 a); lia.
-  - intros ((H1 & H2) & H3). repeat split; auto. intros a. rewrite H3. destruct (N.eqb a0 a); lia.
+  - intros ((H1 & H2) & H3). split; [exact H1 | split; [exact H2|]].
+    intros a. rewrite H3. destruct (N.eqb a0 a); lia.
 Qed.
 Lemma Sur0_any : forall a0 a1 h, Sur 0 a0 h -> Sur 0 a1 h.
 Proof. intros a0 a1 h H. apply Sur0_iff. apply Sur0_iff in H. exact H. Qed.
@@ -428,14 +429,14 @@ Qed.
 Lemma Sur_add_expected : forall k a s, Sur k a (hs s) -> Sur (S k) a (hs (add_expected s a)).
 Proof.
   intros k a s (H1 & H2 & H3). unfold Sur, SurT. cbn [add_expected with_hs hs active challenges expected].
-  repeat split; auto.
+  split; [assumption|split].
   - apply exp_add_wf; assumption.
   - intros b. rewrite exp_get_add, H3. destruct (N.eqb a b); lia.
 Qed.
 Lemma Sur_remove_expected : forall k a s, Sur (S k) a (hs s) -> Sur k a (hs (remove_expected s a)).
 Proof.
   intros k a s (H1 & H2 & H3). unfold Sur, SurT. cbn [remove_expected with_hs hs active challenges expected].
-  repeat split; auto.
+  split; [assumption|split].
   - apply exp_remove_wf; assumption.
   - intros b. rewrite exp_get_remove, H3 by assumption. destruct (N.eqb a b); lia.
 Qed.
@@ -445,13 +446,13 @@ Lemma Sur_ar_insert : forall c k na r now h, Sur (S k) (snd na) h -> req_ok na r
 Proof.
   intros c k na r now h (H1 & H2 & H3) Hok. unfold Sur, SurT, ar_insert.
   cbn [set_active active challenges expected]. destruct (alist_get na (active h)) as [l|] eqn:G.
-  - destruct (ActWF_get _ _ _ H1 G) as [Hne HF]. repeat split; auto.
+  - destruct (ActWF_get _ _ _ H1 G) as [Hne HF]. split; [|split; [assumption|]].
     + eapply ActWF_set; eauto.
       * destruct l; discriminate.
       * apply Forall_app. split; auto.
     + intros a. rewrite H3. pose proof (cnt_act_set a _ _ _ (l ++ [r]) G) as E.
       rewrite app_length in E. cbn [length] in E. unfold ind in E. destruct (N.eqb (snd na) a); lia.
-  - repeat split; auto.
+  - split; [|split; [assumption|]].
     + apply ActWF_app_new; assumption.
     + intros a. rewrite H3, cnt_act_app. cbn [cnt_act length]. unfold ind. destruct (N.eqb (snd na) a); lia.
 Qed.
@@ -499,4 +500,549 @@ Proof.
     + destruct (pop_pk (dr (with_hs s1 h2))) as [[[[cn r] aad] x4] d']. cbn [fst with_hs hs send emit].
       apply (Sur0_iff (snd (c_naddr ct))). apply Sur_ar_insert; [|reflexivity].
       apply (Sur_add_expected 0). cbn [hs]. apply (Sur0_iff (c_addr ct)). exact H3.
+Qed.
+
+Lemma send_pending_requests_inv : forall c s na now,
+  ExpInv (hs s) -> ExpInv (hs (send_pending_requests c s na now)).
+Proof.
+  intros c s na now H. unfold send_pending_requests.
+  destruct (alist_get na (pending (hs s))) as [l|]; [|exact H].
+  apply (fold_left_inv (fun s => ExpInv (hs s))).
+  - intros s' q _ Hs'. pose proof (send_request_inv c s' (pq_contact q) (pq_ext q) (pq_rid q) (pq_body q) now Hs') as X.
+    destruct (send_request c s' (pq_contact q) (pq_ext q) (pq_rid q) (pq_body q) now) as [s'' ok].
+    cbn [fst] in X. destruct ok; [exact X|]. destruct (pq_ext q); exact X.
+  - cbn [with_hs hs]. eapply ExpInv_same; [apply set_pending_same | exact H].
+Qed.
+
+Lemma fold_emit_hs : forall {B} (g : B -> option output) (l : list B) (s : st),
+  hs (fold_left (fun s q => match g q with Some o => emit s o | None => s end) l s) = hs s.
+Proof.
+  intros B g l. induction l as [|q r IH]; intros s; cbn [fold_left]; [reflexivity|].
+  rewrite IH. destruct (g q); reflexivity.
+Qed.
+
+Lemma ar_remove_requests_Sur : forall h na h' reqs,
+  ar_remove_requests h na = (h', reqs) -> ExpInv h -> Sur (length reqs) (snd na) h'.
+Proof.
+  intros h na h' reqs E H. unfold ar_remove_requests in E.
+  apply (Sur0_iff (snd na)) in H. destruct H as (H1 & H2 & H3).
+  destruct (alist_get na (active h)) as [l|] eqn:G; inversion E; subst.
+  - unfold Sur, SurT. cbn [set_active active challenges expected]. split; [|split; [assumption|]].
+    + apply ActWF_remove. assumption.
+    + intros a. rewrite H3. pose proof (cnt_act_remove a _ _ _ G) as X. unfold ind in X.
+      destruct (N.eqb (snd na) a); lia.
+  - split; [assumption|split; [assumption|]]. exact H3.
+Qed.
+
+Lemma fold_remove_expected_Sur : forall (g : rcall -> option output) a (reqs : list rcall) (s : st),
+  Sur (length reqs) a (hs s) ->
+  Sur 0 a (hs (fold_left (fun s r => remove_expected (match g r with Some o => emit s o | None => s end) a) reqs s)).
+Proof.
+  intros g a. induction reqs as [|r t IH]; intros s H; cbn [fold_left]; [exact H|].
+  apply IH. apply Sur_remove_expected. destruct (g r); exact H.
+Qed.
+
+Lemma fail_session_inv : forall c s na err rm,
+  ExpInv (hs s) -> ExpInv (hs (fail_session c s na err rm)).
+Proof.
+  intros c s na err rm H. unfold fail_session.
+  set (s1 := if rm then with_hs s (sess_remove (hs s) na) else s).
+  assert (H1 : ExpInv (hs s1)).
+  { subst s1. destruct rm; [|exact H]. cbn [with_hs hs]. eapply ExpInv_same; [apply sess_remove_same|exact H]. }
+  clearbody s1.
+  set (s2 := match alist_get na (pending (hs s1)) with Some l => _ | None => s1 end).
+  assert (H2 : ExpInv (hs s2)).
+  { subst s2. destruct (alist_get na (pending (hs s1))) as [l|]; [|exact H1].
+    match goal with |- ExpInv (hs (fold_left ?f l ?s0)) =>
+      assert (X : hs (fold_left f l s0) = hs s0) end.
+    { generalize (with_hs s1 (set_pending (hs s1) (alist_remove na (pending (hs s1))))).
+      induction l as [|q r IH]; intros s0; cbn [fold_left]; [reflexivity|].
+      rewrite IH. destruct (pq_ext q); reflexivity. }
+    rewrite X. cbn [with_hs hs]. eapply ExpInv_same; [apply set_pending_same|exact H1]. }
+  clearbody s2.
+  destruct (ar_remove_requests (hs s2) na) as [h3 reqs] eqn:E.
+  pose proof (ar_remove_requests_Sur _ _ _ _ E H2) as H3.
+  apply (Sur0_iff (snd na)).
+  assert (X : forall (l : list rcall) s0, Sur (length l) (snd na) (hs s0) ->
+    Sur 0 (snd na) (hs (fold_left (fun s r =>
+      let s' := if rc_ext r then emit s (OEvent (HRequestFailed (rc_rid r) err)) else s in
+      remove_expected s' (snd na)) l s0))).
+  { induction l as [|r t IH]; intros s0 Hs0; cbn [fold_left]; [exact Hs0|].
+    apply IH. apply Sur_remove_expected. destruct (rc_ext r); exact Hs0. }
+  apply X. exact H3.
+Qed.
+
+Lemma fail_request_inv : forall c s r err rm,
+  ExpInv (hs s) -> ExpInv (hs (fail_request c s r err rm)).
+Proof.
+  intros c s r err rm H. unfold fail_request. apply fail_session_inv. destruct (rc_ext r); exact H.
+Qed.
+
+(* the local fixpoint of ar_update_packet *)
+Definition upd_pkt (old : nonce) (p : packet) := fix upd_pkt (l : list rcall) (done : bool) : list rcall :=
+  match l with
+  | [] => []
+  | r :: rest =>
+    if negb done && nonce_eqb (rc_nonce r) old then
+      {| rc_contact := rc_contact r; rc_pkt := p; rc_ext := rc_ext r; rc_rid := rc_rid r;
+         rc_body := rc_body r; rc_hs_sent := rc_hs_sent r; rc_retries := rc_retries r;
+         rc_remaining := rc_remaining r; rc_init := rc_init r |} :: upd_pkt rest true
+    else r :: upd_pkt rest done
+  end.
+
+Lemma ar_update_packet_eq : forall c h old p now,
+  ar_update_packet c h old p now =
+  match nmap_get old (nmap h) with
+  | None => h
+  | Some na =>
+    let nm := nmap_insert (pkt_nonce p) na (now + cfg_timeout c)%N (nmap_remove old (nmap h)) in
+    match alist_get na (active h) with
+    | None => set_active h (active h) nm
+    | Some l => set_active h (alist_set na (upd_pkt old p l false) (active h)) nm
+    end
+  end.
+Proof. reflexivity. Qed.
+
+Lemma upd_pkt_length : forall old p l done, length (upd_pkt old p l done) = length l.
+Proof.
+  intros old p. induction l as [|r t IH]; intros done; cbn [upd_pkt length]; [reflexivity|].
+  destruct (negb done && nonce_eqb (rc_nonce r) old); cbn [length]; rewrite IH; reflexivity.
+Qed.
+Lemma upd_pkt_ok : forall na old p l done, Forall (req_ok na) l -> Forall (req_ok na) (upd_pkt old p l done).
+Proof.
+  intros na old p. induction l as [|r t IH]; intros done H; cbn [upd_pkt]; [constructor|].
+  inversion H; subst. destruct (negb done && nonce_eqb (rc_nonce r) old); constructor; auto.
+Qed.
+
+Lemma ar_update_packet_Sur : forall c k a h old p now, Sur k a h -> Sur k a (ar_update_packet c h old p now).
+Proof.
+  intros c k a h old p now H. rewrite ar_update_packet_eq.
+  destruct (nmap_get old (nmap h)) as [na|]; [|exact H]. cbv zeta.
+  destruct (alist_get na (active h)) as [l|] eqn:G; [|exact H].
+  destruct H as (H1 & H2 & H3). unfold Sur, SurT. cbn [set_active active challenges expected].
+  destruct (ActWF_get _ _ _ H1 G) as [Hne HF]. split; [|split; [assumption|]].
+  - eapply ActWF_set; eauto.
+    + intros E. apply (f_equal (@length _)) in E. rewrite upd_pkt_length in E. destruct l; [congruence|discriminate].
+    + apply upd_pkt_ok. assumption.
+  - intros b. rewrite H3. pose proof (cnt_act_set b _ _ _ (upd_pkt old p l false) G) as X.
+    rewrite upd_pkt_length in X. lia.
+Qed.
+
+Lemma replay_active_requests_inv : forall c s na skip now,
+  ExpInv (hs s) -> ExpInv (hs (replay_active_requests c s na skip now)).
+Proof.
+  intros c s na skip now H. unfold replay_active_requests.
+  pose proof (sess_get_same (hs s) na) as H1.
+  destruct (sess_get (hs s) na) as [h1 se]. cbn [fst] in H1. destruct se as [se0|]; [|exact H].
+  match goal with |- context [fold_left ?f ?l (with_hs s h1, se0, [])] =>
+    assert (X : hs (fst (fst (fold_left f l (with_hs s h1, se0, [])))) = h1) end.
+  { apply (fold_left_inv (fun acc : st * session * list (nonce * packet) => hs (fst (fst acc)) = h1)).
+    - intros [[s' se'] pk] r _ Ha. cbn [fst] in Ha.
+      pose proof (encrypt_message_hs c s' na se' (MReq (rc_rid r) (rc_body r))) as Y.
+      destruct (encrypt_message c s' na se' (MReq (rc_rid r) (rc_body r))) as [[s'' se''] p].
+      cbn [fst] in *. congruence.
+    - reflexivity. }
+  match goal with |- context [fold_left ?f ?l (with_hs s h1, se0, [])] =>
+    destruct (fold_left f l (with_hs s h1, se0, [])) as [[s2 se2] pkts] end.
+  cbn [fst] in X.
+  apply (fold_left_inv (fun s => ExpInv (hs s))).
+  - intros s' x _ Hs'. cbn [send emit with_hs hs]. apply (Sur0_iff 0%N). apply ar_update_packet_Sur.
+    apply Sur0_iff. exact Hs'.
+  - cbn [with_hs hs]. eapply ExpInv_same; [apply sess_put_same|]. rewrite X.
+    eapply ExpInv_same; [exact H1|exact H].
+Qed.
+
+Lemma new_session_inv : forall c s na se skip now,
+  ExpInv (hs s) -> ExpInv (hs (new_session c s na se skip now)).
+Proof.
+  intros c s na se skip now H. unfold new_session.
+  pose proof (sess_get_same (hs s) na) as H1.
+  destruct (sess_get (hs s) na) as [h1 cur]. cbn [fst] in H1.
+  assert (H2 : ExpInv h1) by (eapply ExpInv_same; eauto).
+  destruct cur as [cs|].
+  - match goal with |- context [replay_active_requests c ?s1 na skip now] =>
+      assert (X : ExpInv (hs (replay_active_requests c s1 na skip now))) end.
+    { apply replay_active_requests_inv. cbn [with_hs hs]. eapply ExpInv_same; [apply sess_put_same|exact H2]. }
+    destruct (fix_d2a c); [apply send_pending_requests_inv|]; exact X.
+  - apply send_pending_requests_inv. cbn [with_hs hs]. eapply ExpInv_same; [apply sess_insert_same|exact H2].
+Qed.
+
+Lemma handle_request_timeout_inv : forall c s na r now,
+  Sur 1 (snd na) (hs s) -> req_ok na r -> ExpInv (hs (handle_request_timeout c s na r now)).
+Proof.
+  intros c s na r now H Hok. unfold handle_request_timeout.
+  destruct (N.leb (cfg_retries c) (rc_retries r)).
+  - apply fail_request_inv. apply (Sur0_iff (snd na)). apply Sur_remove_expected. exact H.
+  - cbn [send emit with_hs hs]. apply (Sur0_iff (snd na)). apply Sur_ar_insert; [exact H|exact Hok].
+Qed.
+
+Lemma send_response_inv : forall c s na rid rb, ExpInv (hs s) -> ExpInv (hs (send_response c s na rid rb)).
+Proof.
+  intros c s na rid rb H. unfold send_response.
+  pose proof (sess_get_same (hs s) na) as H1.
+  destruct (sess_get (hs s) na) as [h1 se]. cbn [fst] in H1. destruct se as [se|]; [|exact H].
+  pose proof (encrypt_message_hs c (with_hs s h1) na se (MResp rid rb)) as Y.
+  destruct (encrypt_message c (with_hs s h1) na se (MResp rid rb)) as [[s2 se'] p].
+  cbn [fst with_hs hs] in Y. cbn [send emit with_hs hs].
+  eapply ExpInv_same; [apply sess_put_same|]. rewrite Y. eapply ExpInv_same; eauto.
+Qed.
+
+Lemma send_challenge_inv : forall c s na n known now,
+  ExpInv (hs s) -> ExpInv (hs (send_challenge c s na n known now)).
+Proof.
+  intros c s na n known now H. unfold send_challenge.
+  destruct (has_challenge (hs s) na); [exact H|].
+  destruct (pop_pk (dr s)) as [[[[idn x2] cd] x4] d'].
+  cbn [send emit with_hs hs add_expected set_challenges].
+  apply (Sur0_iff (snd na)) in H. destruct H as (H1 & H2 & H3).
+  apply (Sur0_iff (snd na)). unfold Sur, SurT. cbn [active challenges expected set_challenges].
+  split; [assumption|split].
+  - apply exp_add_wf; assumption.
+  - intros a. rewrite exp_get_add, H3, cnt_ch_app. cbn [cnt_ch]. unfold ind. destruct (N.eqb (snd na) a); lia.
+Qed.
+
+Lemma ar_remove_request_Sur : forall h na rid h' r,
+  ar_remove_request h na rid = (h', Some r) -> ExpInv h -> Sur 1 (snd na) h' /\ req_ok na r.
+Proof.
+  intros h na rid h' r E H. unfold ar_remove_request in E.
+  apply (Sur0_iff (snd na)) in H. destruct H as (H1 & H2 & H3).
+  destruct (alist_get na (active h)) as [l|] eqn:G; [|discriminate].
+  destruct (remove_first (fun r0 => N.eqb (rc_rid r0) rid) l) as [[r0 l']|] eqn:R; [|discriminate].
+  inversion E; subst. destruct (ActWF_get _ _ _ H1 G) as [Hne HF].
+  destruct (remove_first_Forall _ _ _ _ _ R HF) as [Hr HF'].
+  apply remove_first_spec in R. destruct R as (_ & Hlen & _).
+  split; [|exact Hr]. unfold Sur, SurT. cbn [set_active active challenges expected].
+  split; [|split; [assumption|]].
+  - eapply ActWF_put; eauto.
+  - intros a. rewrite H3. pose proof (cnt_act_put a _ _ _ l' G) as X. rewrite Hlen in X.
+    unfold ind in X. destruct (N.eqb (snd na) a); lia.
+Qed.
+
+Lemma ar_remove_request_none : forall h na rid h', ar_remove_request h na rid = (h', None) -> h' = h.
+Proof.
+  intros h na rid h' E. unfold ar_remove_request in E.
+  destruct (alist_get na (active h)) as [l|]; [|congruence].
+  destruct (remove_first (fun r0 => N.eqb (rc_rid r0) rid) l) as [[r0 l']|]; [discriminate|congruence].
+Qed.
+
+Lemma handle_response_inv : forall c s na rid rb now,
+  ExpInv (hs s) -> ExpInv (hs (handle_response c s na rid rb now)).
+Proof.
+  intros c s na rid rb now H. unfold handle_response.
+  destruct (ar_remove_request (hs s) na rid) as [h1 found] eqn:E.
+  destruct found as [r|]; [|exact H].
+  destruct (ar_remove_request_Sur _ _ _ _ _ E H) as [H1 Hok].
+  assert (R : forall rem ev, ExpInv (hs (emit (with_hs (with_hs s h1)
+             (ar_insert c (hs (with_hs s h1)) na
+                {| rc_contact := rc_contact r; rc_pkt := rc_pkt r; rc_ext := rc_ext r; rc_rid := rc_rid r;
+                   rc_body := rc_body r; rc_hs_sent := rc_hs_sent r; rc_retries := rc_retries r;
+                   rc_remaining := rem; rc_init := rc_init r |} now)) ev))).
+  { intros rem ev. cbn [emit with_hs hs]. apply (Sur0_iff (snd na)). apply Sur_ar_insert; [exact H1|exact Hok]. }
+  assert (F : forall ev, ExpInv (hs (emit (remove_expected (with_hs s h1) (snd na)) ev))).
+  { intros ev. rewrite emit_hs. apply (Sur0_iff (snd na)). apply Sur_remove_expected. exact H1. }
+  cbv zeta. destruct rb as [total recs|tag]; [|apply F].
+  destruct (N.ltb 1 total); [|apply F].
+  destruct (rc_remaining r) as [rem|]; [|apply R].
+  destruct (negb (N.eqb (rem - 1) 0)); [apply R|apply F].
+Qed.
+
+Lemma handle_message_inv : forall c s na n aad ct now,
+  ExpInv (hs s) -> ExpInv (hs (handle_message c s na n aad ct now)).
+Proof.
+  intros c s na n aad ct now H. unfold handle_message.
+  pose proof (sess_get_same (hs s) na) as H1.
+  destruct (sess_get (hs s) na) as [h1 se]. cbn [fst] in H1. destruct se as [se|]; [|exact H].
+  destruct (decrypt_message se n aad ct) as [se' m].
+  set (s2 := with_hs (with_hs s h1) (sess_put (hs (with_hs s h1)) na se')).
+  assert (H2 : ExpInv (hs s2)).
+  { subst s2. cbn [with_hs hs]. eapply ExpInv_same; [apply sess_put_same|]. eapply ExpInv_same; eauto. }
+  clearbody s2.
+  destruct m as [[rid body|rid rb|j]|].
+  - exact H2.
+  - assert (HR : ExpInv (hs (handle_response c s2 na rid rb now))) by (apply handle_response_inv; exact H2).
+    destruct (s_await se') as [arid|]; [|exact HR].
+    destruct (N.eqb rid arid); [|exact HR].
+    match goal with |- context [fail_session c ?x na ERR_INVALID_REMOTE_ENR true] => set (s3 := x) end.
+    assert (H3 : ExpInv (hs s3)).
+    { subst s3.
+      assert (H3 : ExpInv (hs (with_hs s2 (sess_put (hs s2) na
+                   {| s_enc := s_enc se'; s_dec := s_dec se'; s_old := s_old se'; s_await := None;
+                      s_counter := s_counter se' |})))).
+      { cbn [with_hs hs]. eapply ExpInv_same; [apply sess_put_same|exact H2]. }
+      destruct (fix_d2b c); [|exact H3].
+      match goal with |- context [ar_remove_request ?h na rid] =>
+        destruct (ar_remove_request h na rid) as [h4 found] eqn:E end.
+      destruct found as [r|]; [|exact H3].
+      destruct (ar_remove_request_Sur _ _ _ _ _ E H3) as [H4 _].
+      apply (Sur0_iff (snd na)). apply Sur_remove_expected. exact H4. }
+    clearbody s3.
+    destruct rb as [total recs|tag]; [|apply fail_session_inv; exact H3].
+    destruct (rev recs) as [|e t]; [apply fail_session_inv; exact H3|].
+    destruct (verify_enr e na); [exact H3|]. apply fail_session_inv. exact H3.
+  - exact H2.
+  - match goal with |- context [has_challenge (hs ?x) na] => assert (H3 : ExpInv (hs x)) end.
+    { apply fail_session_inv. exact H2. }
+    destruct (has_challenge _ na); exact H3.
+Qed.
+
+Lemma chall_remove_Sur : forall s na ch, chall_get na (challenges (hs s)) = Some ch -> ExpInv (hs s) ->
+  Sur 1 (snd na) (hs (with_hs s (set_challenges (hs s) (chall_remove na (challenges (hs s)))))).
+Proof.
+  intros s na ch G H. apply (Sur0_iff (snd na)) in H. destruct H as (H1 & H2 & H3).
+  unfold Sur, SurT. cbn [with_hs hs set_challenges active challenges expected].
+  split; [assumption|split; [assumption|]]. intros a. rewrite H3.
+  pose proof (chall_get_remove a _ _ _ G) as X. unfold ind in X. destruct (N.eqb (snd na) a); lia.
+Qed.
+
+Lemma handle_auth_message_inv : forall c s na n aad sg eph eph_ok rec ct now,
+  fix_d6 c = true ->
+  ExpInv (hs s) -> ExpInv (hs (handle_auth_message c s na n aad sg eph eph_ok rec ct now)).
+Proof.
+  intros c s na n aad sg eph eph_ok rec ct now D6 H. unfold handle_auth_message.
+  destruct (chall_get na (challenges (hs s))) as [ch|] eqn:G; [|exact H].
+  pose proof (chall_remove_Sur s na ch G H) as H1.
+  set (s1 := with_hs s (set_challenges (hs s) (chall_remove na (challenges (hs s))))) in *. clearbody s1.
+  destruct (establish c (fst na) ch sg eph eph_ok rec) as [se e| |].
+  - apply handle_message_inv. apply new_session_inv.
+    assert (H2 : ExpInv (hs (remove_expected s1 (snd na)))).
+    { apply (Sur0_iff (snd na)). apply Sur_remove_expected. exact H1. }
+    destruct (verify_enr e na); exact H2.
+  - destruct H1 as (H1 & H2 & H3). apply (Sur0_iff (snd na)). unfold Sur, SurT.
+    cbn [with_hs hs set_challenges active challenges expected].
+    split; [assumption|split; [assumption|]]. intros a. rewrite H3, cnt_ch_app. cbn [cnt_ch]. unfold ind.
+    destruct (N.eqb (snd na) a); lia.
+  - rewrite D6. apply fail_session_inv. apply (Sur0_iff (snd na)). apply Sur_remove_expected. exact H1.
+Qed.
+
+Lemma put_list_same_cnt : forall a act na l, alist_get na act = Some l -> cnt_act a (put_list na l act) = cnt_act a act.
+Proof. intros a act na l G. pose proof (cnt_act_put a act na l l G). lia. Qed.
+
+Lemma ar_remove_by_nonce_Sur : forall h n h' found,
+  ar_remove_by_nonce h n = (h', found) -> ExpInv h ->
+  match found with
+  | Some (na, r) => Sur 1 (snd na) h' /\ req_ok na r
+  | None => ExpInv h'
+  end.
+Proof.
+  intros h n h' found E H. unfold ar_remove_by_nonce in E.
+  destruct (nmap_get n (nmap h)) as [na|]; [|inversion E; subst; exact H].
+  destruct (alist_get na (active h)) as [l|] eqn:G.
+  2:{ inversion E; subst. eapply ExpInv_ext; [| | |exact H]; reflexivity. }
+  pose proof H as H0. apply (Sur0_iff (snd na)) in H. destruct H as (H1 & H2 & H3).
+  destruct (ActWF_get _ _ _ H1 G) as [Hne HF].
+  destruct (remove_first (fun r => nonce_eqb (rc_nonce r) n) l) as [[r l']|] eqn:R; inversion E; subst.
+  - destruct (remove_first_Forall _ _ _ _ _ R HF) as [Hr HF'].
+    apply remove_first_spec in R. destruct R as (_ & Hlen & _).
+    split; [|exact Hr]. unfold Sur, SurT. cbn [set_active active challenges expected].
+    split; [|split; [assumption|]].
+    + eapply ActWF_put; eauto.
+    + intros a. rewrite H3. pose proof (cnt_act_put a _ _ _ l' G) as X. rewrite Hlen in X.
+      unfold ind in X. destruct (N.eqb (snd na) a); lia.
+  - apply (Sur0_iff (snd na)). unfold Sur, SurT. cbn [set_active active challenges expected].
+    split; [|split; [assumption|]].
+    + eapply ActWF_put; eauto.
+    + intros a. rewrite H3, put_list_same_cnt by assumption. reflexivity.
+Qed.
+
+Lemma handle_challenge_inv : forall c s src n seq cd now,
+  fix_d6 c = true ->
+  ExpInv (hs s) -> ExpInv (hs (handle_challenge c s src n seq cd now)).
+Proof.
+  intros c s src n seq cd now D6 H. unfold handle_challenge.
+  destruct (nmap_get n (nmap (hs s))) as [na0|]; [|exact H].
+  destruct (ar_remove_by_nonce (hs s) n) as [h1 found] eqn:E.
+  pose proof (ar_remove_by_nonce_Sur _ _ _ _ E H) as H1.
+  destruct found as [[na r]|]; [|exact H1]. destruct H1 as [H1 Hok].
+  destruct (N.eqb (snd na) src) eqn:Esrc; cbn [negb].
+  2:{ cbn [with_hs hs]. apply (Sur0_iff (snd na)). apply Sur_ar_insert; assumption. }
+  apply N.eqb_eq in Esrc. subst src.
+  destruct (rc_hs_sent r).
+  { rewrite D6. apply fail_request_inv. apply (Sur0_iff (snd na)). apply Sur_remove_expected. exact H1. }
+  destruct (pop_pk (dr (with_hs s h1))) as [[[[cn rr] aad] eph] d'].
+  unfold req_ok in Hok. rewrite Hok. cbn [with_hs hs].
+  destruct (c_enr (rc_contact r)) as [e|].
+  - apply new_session_inv. cbn [emit send with_hs hs]. apply (Sur0_iff (snd na)).
+    apply Sur_ar_insert; [exact H1|]. unfold req_ok. cbn [rc_contact]. exact Hok.
+  - destruct (pop_rid _) as [irid d''].
+    match goal with |- context [send_request c ?s5 ?ct false irid 0%N now] =>
+      pose proof (send_request_inv c s5 ct false irid 0%N now) as X;
+      destruct (send_request c s5 ct false irid 0%N now) as [s6 ok] end.
+    cbn [fst] in X. apply new_session_inv. apply X. cbn [emit send with_hs hs].
+    apply (Sur0_iff (snd na)). apply Sur_ar_insert; [exact H1|]. unfold req_ok. cbn [rc_contact]. exact Hok.
+Qed.
+
+Lemma fire_request_inv : forall c s n na now, ExpInv (hs s) -> ExpInv (hs (fire_request c s n na now)).
+Proof.
+  intros c s n na now H. unfold fire_request.
+  assert (H0 : ExpInv (hs (with_hs s (set_active (hs s) (active (hs s)) (nmap_remove n (nmap (hs s))))))).
+  { cbn [with_hs hs]. eapply ExpInv_ext; [| | |exact H]; reflexivity. }
+  destruct (alist_get na (active (hs s))) as [l|] eqn:G; [|exact H0].
+  destruct (remove_first (fun r => nonce_eqb (rc_nonce r) n) l) as [[r l']|] eqn:R; [|exact H0].
+  apply (Sur0_iff (snd na)) in H. destruct H as (H1 & H2 & H3).
+  destruct (ActWF_get _ _ _ H1 G) as [Hne HF].
+  destruct (remove_first_Forall _ _ _ _ _ R HF) as [Hr HF'].
+  apply remove_first_spec in R. destruct R as (_ & Hlen & _).
+  apply handle_request_timeout_inv; [|exact Hr].
+  unfold Sur, SurT. cbn [with_hs hs set_active active challenges expected].
+  split; [|split; [assumption|]].
+  - eapply ActWF_put; eauto.
+  - intros a. rewrite H3. pose proof (cnt_act_put a _ _ _ l' G) as X. rewrite Hlen in X.
+    unfold ind in X. destruct (N.eqb (snd na) a); lia.
+Qed.
+
+Lemma fire_challenge_inv : forall c s na now,
+  chall_get na (challenges (hs s)) <> None ->
+  ExpInv (hs s) -> ExpInv (hs (fire_challenge c s na now)).
+Proof.
+  intros c s na now G H. unfold fire_challenge.
+  destruct (chall_get na (challenges (hs s))) as [ch|] eqn:G'; [|congruence].
+  apply send_pending_requests_inv. apply (Sur0_iff (snd na)). apply Sur_remove_expected.
+  eapply chall_remove_Sur; eauto.
+Qed.
+
+Lemma fire_group_inv : forall c g s d ft, ExpInv (hs s) -> ExpInv (hs (fire_group c s g d ft)).
+Proof.
+  intros c g s d ft H. unfold fire_group. apply (fold_left_inv (fun s => ExpInv (hs s))); [|exact H].
+  intros s' x _ Hs'. destruct (nmap_deadline (fst x) (nmap (hs s'))) as [d'|]; [|exact Hs'].
+  destruct (N.eqb d' d); [|exact Hs']. apply fire_request_inv. exact Hs'.
+Qed.
+
+Lemma min_deadline_ch_in : forall l best x, min_deadline_ch l best = Some x -> In x l \/ best = Some x.
+Proof.
+  induction l as [|[[a ch] d] r IH]; cbn [min_deadline_ch In]; intros best x H; [auto|].
+  apply IH in H. destruct H as [H|H]; [auto|].
+  destruct best as [[[ba bc] bd]|].
+  - destruct (N.ltb d bd); [inversion H; auto|auto].
+  - inversion H; auto.
+Qed.
+
+Lemma fire_due_inv : forall c now fuel s, ExpInv (hs s) -> ExpInv (hs (fire_due c s now fuel)).
+Proof.
+  intros c now. induction fuel as [|f IH]; intros s H; cbn [fire_due]; [exact H|].
+  assert (FR : forall d, ExpInv (hs (match group_of d (nmap (hs s)) with
+      | _ :: _ :: _ =>
+        let (rev_order, d') := pop_rev (dr s) in
+        fire_group c {| hs := hs s; dr := d'; outs := outs s |}
+          (if rev_order then rev (group_of d (nmap (hs s))) else group_of d (nmap (hs s))) d (fire_time c d now)
+      | _ => fire_group c s (group_of d (nmap (hs s))) d (fire_time c d now)
+      end))).
+  { intros d. destruct (group_of d (nmap (hs s))) as [|x [|y g]]; try (apply fire_group_inv; exact H).
+    destruct (pop_rev (dr s)) as [ro d']. apply fire_group_inv. exact H. }
+  assert (FC : forall cna cc cd, min_deadline_ch (challenges (hs s)) None = Some (cna, cc, cd) ->
+    ExpInv (hs (fire_challenge c s cna (fire_time c cd now)))).
+  { intros cna cc cd E. apply fire_challenge_inv; [|exact H].
+    apply min_deadline_ch_in in E. destruct E as [E|E]; [|discriminate]. eapply chall_get_in; eauto. }
+  destruct (min_deadline_nmap (nmap (hs s)) None) as [[[rn ra] rd]|];
+  destruct (min_deadline_ch (challenges (hs s)) None) as [[[cna cc] cd]|] eqn:EC.
+  - destruct (N.ltb rd now && (negb (N.ltb cd now) || N.leb rd cd)); [apply IH; apply FR|].
+    destruct (N.ltb cd now); [apply IH; eapply FC; reflexivity|exact H].
+  - destruct (N.ltb rd now); [apply IH; apply FR|exact H].
+  - destruct (N.ltb cd now); [apply IH; eapply FC; reflexivity|exact H].
+  - exact H.
+Qed.
+
+Definition fixed_cfg (c : config) : Prop :=
+  fix_d1 c = true /\ fix_d2a c = true /\ fix_d2b c = true /\ fix_d6 c = true.
+
+Lemma step_inv_d6 : forall c h e now d, fix_d6 c = true -> ExpInv h -> ExpInv (fst (step c h e now d)).
+Proof.
+  intros c h e now d D6 H. unfold step. cbn [fst].
+  assert (H0 : ExpInv (hs (fire_due c {| hs := h; dr := d; outs := [] |} now TICK_FUEL))).
+  { apply fire_due_inv. exact H. }
+  set (s0 := fire_due c {| hs := h; dr := d; outs := [] |} now TICK_FUEL) in *. clearbody s0.
+  destruct e as [ct rid body|na rid rb|na n known|from p|].
+  - pose proof (send_request_inv c s0 ct true rid body now H0) as X.
+    destruct (send_request c s0 ct true rid body now) as [s1 ok]. cbn [fst] in X. destruct ok; exact X.
+  - apply send_response_inv. exact H0.
+  - apply send_challenge_inv. exact H0.
+  - destruct p.
+    + apply handle_message_inv. exact H0.
+    + apply handle_challenge_inv; assumption.
+    + apply handle_auth_message_inv; assumption.
+  - exact H0.
+Qed.
+
+Lemma step_inv : forall c h e now d, fixed_cfg c -> ExpInv h -> ExpInv (fst (step c h e now d)).
+Proof. intros c h e now d (_ & _ & _ & D6). apply step_inv_d6. exact D6. Qed.
+
+Lemma run_inv_d6 : forall c evs h, fix_d6 c = true -> ExpInv h -> ExpInv (fst (run c h evs)).
+Proof.
+  intros c. induction evs as [|[[e now] d] rest IH]; intros h D6 H; cbn [run]; [exact H|].
+  pose proof (step_inv_d6 c h e now d D6 H) as X. destruct (step c h e now d) as [h1 o]. cbn [fst] in X.
+  specialize (IH h1 D6 X). destruct (run c h1 rest) as [h2 os]. exact IH.
+Qed.
+
+(* every reachable state *)
+Theorem expected_exact : forall c evs, fixed_cfg c -> ExpInv (fst (run c init_state evs)).
+Proof. intros c evs (_ & _ & _ & D6). apply run_inv_d6; [exact D6|exact init_ExpInv]. Qed.
+
+Theorem all_done_no_exemption : forall h, ExpInv h -> active h = [] -> challenges h = [] -> expected h = [].
+Proof.
+  intros h ((H1 & H2) & H3) Ha Hc. apply exp_all_zero_nil; [exact H2|].
+  intros a. rewrite H3. unfold cnt_active, cnt_chall. rewrite Ha, Hc. reflexivity.
+Qed.
+
+(* the filter asks whether the address is a key of the map (contains_key) *)
+Lemma exp_key_iff : forall e a, ExpWF e -> (In a (map fst e) <-> 0 < exp_get a e).
+Proof.
+  unfold ExpWF. induction e as [|[b n] r IH]; intros a [H1 H2].
+  - cbn. split; [tauto|lia].
+  - inversion H1; subst. inversion H2; subst. cbn [fst snd map In] in *. rewrite exp_get_cons.
+    destruct (N.eqb b a) eqn:E.
+    + apply N.eqb_eq in E. subst. split; auto.
+    + apply N.eqb_neq in E. rewrite <- IH by auto. split; [intros [H|H]; [congruence|assumption]|auto].
+Qed.
+
+Theorem exempt_iff_waiting : forall h a, ExpInv h ->
+  (In a (map fst (expected h)) <-> 0 < cnt_active a h + cnt_chall a h).
+Proof. intros h a ((H1 & H2) & H3). rewrite <- H3. apply exp_key_iff. exact H2. Qed.
+
+(* ------------------------------------------------------------------------------------------ *)
+(* a concrete configuration and concrete runs: the hypotheses are satisfiable by non-trivial
+   reachable states, and the pinned behaviour (fix_d6 = false) leaked an exemption *)
+
+Local Open Scope N_scope.
+Definition ex_enr (i a : N) : enr := {| e_id := i; e_seq := 1; e_ip4 := Some a; e_ip6 := None |}.
+Definition ex_cfg (fixes : bool) : config :=
+  {| cfg_local := 1; cfg_enr := ex_enr 1 10; cfg_retries := 2; cfg_timeout := 1000; cfg_listen := [10%N];
+     cfg_capacity := 8%nat; cfg_grid := 0;
+     fix_d1 := fixes; fix_d2a := fixes; fix_d2b := fixes; fix_d6 := fixes |}.
+Definition ex_peer : contact := {| c_id := 2; c_addr := 20; c_enr := Some (ex_enr 2 20) |}.
+Definition ex_draws (x : N) : draws := {| d_pk := [(x, x + 1, x + 2, x + 3)%N]; d_rid := []; d_rev := [] |}.
+
+Lemma ex_cfg_fixed : fixed_cfg (ex_cfg true).
+Proof. repeat split. Qed.
+
+(* request to the peer, the peer challenges it, we answer with a handshake; then the peer challenges
+   the handshake packet again *)
+Definition ex_leak_events : list (event * N * draws) :=
+  [ (EvRequest ex_peer 100 7, 0%N, ex_draws 50);
+    (EvInbound 20 (PWho (50, 51)%N 1 0 9), 10%N, ex_draws 60);
+    (EvInbound 20 (PWho (60, 61)%N 2 0 9), 20%N, ex_draws 70) ].
+
+Theorem pinned_exemption_leak_refuted :
+  exists c evs, fix_d6 c = false /\
+    let h := fst (run c init_state evs) in active h = [] /\ challenges h = [] /\ expected h <> [].
+Proof.
+  exists (ex_cfg false), ex_leak_events. vm_compute. repeat split; discriminate.
+Qed.
+
+(* the same events with the repair: nothing is left *)
+Example fixed_no_leak :
+  let h := fst (run (ex_cfg true) init_state ex_leak_events) in active h = [] /\ challenges h = [] /\ expected h = [].
+Proof. vm_compute. repeat split. Qed.
+
+(* a reachable state with an established session, an active request and a pending challenge;
+   one exemption for each *)
+Definition ex_busy_events : list (event * N * draws) :=
+  [ (EvRequest ex_peer 100 7, 0%N, ex_draws 50);
+    (EvInbound 20 (PWho (50, 51)%N 1 0 9), 10%N, ex_draws 60);
+    (EvRequest ex_peer 101 8, 20%N, ex_draws 70);
+    (EvWhoAreYou (3, 30)%N (5, 5)%N None, 30%N, ex_draws 80) ].
+Example busy_state :
+  let h := fst (run (ex_cfg true) init_state ex_busy_events) in
+  ExpInv h /\ length (sessions h) = 1%nat /\ cnt_active 20 h = 2%nat /\ cnt_chall 30 h = 1%nat /\
+  expected h = [(20, 2%nat); (30, 1%nat)].
+Proof.
+  split; [apply expected_exact; exact ex_cfg_fixed|]. vm_compute. repeat split.
 Qed.
